@@ -3,17 +3,20 @@ Line-protocol driver: dispatch on the first word of each line.
 -/
 import Univers.Driver.Util
 import Univers.Driver.Alpm
+import Univers.Driver.Conan
 import Univers.Driver.Deb
 import Univers.Driver.Gem
 import Univers.Driver.Gentoo
+import Univers.Driver.Nuget
 import Univers.Driver.Openssl
+import Univers.Driver.Pypi
 import Univers.Driver.Rpm
 import Univers.Driver.Semver
 import Univers.Driver.Vers
 
 namespace Univers.Driver
 
-def handlers : List (List String → Option String) := [alpmCmd, debCmd, gemCmd, gentooCmd, opensslCmd, rpmCmd, semverCmd, versCmd]
+def handlers : List (List String → Option String) := [alpmCmd, conanCmd, debCmd, gemCmd, gentooCmd, nugetCmd, opensslCmd, pypiCmd, rpmCmd, semverCmd, versCmd]
 
 def answer (line : String) : String :=
   let ws := (line.splitOn " ").filter (· ≠ "")
